@@ -1829,6 +1829,8 @@ def _compare_nil(_: None, y) -> int:
 
 @compare.register(decimal.Decimal)
 def _compare_decimal(x: decimal.Decimal, y) -> int:
+    if y is None:
+        return 1
     # Decimal instances will not compare with float("nan"), so we need a special case
     if isinstance(y, float):
         return -compare(y, x)  # pylint: disable=arguments-out-of-order
